@@ -28,7 +28,7 @@
 ! Functions are designed to be compiled with f2py and called from Python
       subroutine ampld(axi, rat, lam, mrr, mri, eps, np, ndgs, 
      &                      alpha, beta, thet0, thet, phi0, phi, nang,
-     &                      s11, s12, s21, s22)
+     &                      s11, s12, s21, s22, ierr)
 c parameters:
       integer, parameter :: dp = selected_real_kind(15, 307)
 c variables:
@@ -38,16 +38,31 @@ c variables:
       real(kind=dp), intent(in) :: axi, rat, alpha, beta, thet0, phi0
       real(kind=dp), dimension(nang),intent(in) :: thet, phi
       complex(kind=dp), dimension(nang),intent(out) :: s11,s12,s21,s22
+c nonzero when the solver gave up (see /tmfail/ in ampld.lp.f): the
+c amplitudes are then undefined
+      integer, intent(out) :: ierr
+      integer :: ifail
+      common /tmfail/ ifail
+      ifail = 0
+      ierr = 0
 
 C Call amp_scat_matrix on the first angle to calc the T-matrix
       call amp_scat_matrix (axi,rat,lam,mrr,mri,eps,np,ndgs,alpha,
      &                      beta,thet0,thet(1),phi0,phi(1),
      &                      s11(1),s12(1),s21(1),s22(1),maxi)
+      if (ifail /= 0) then
+         ierr = ifail
+         return
+      end if
 C loop over the rest of the angles. T-matrix is a global (common)
       if (nang > 1) then
          do j=2, nang
             call ampl (maxi,lam,thet0,thet(j),phi0,phi(j),alpha,beta,
      &                 s11(j),s12(j),s21(j),s22(j))
+            if (ifail /= 0) then
+               ierr = ifail
+               return
+            end if
          end do
       end if
       return
